@@ -185,3 +185,31 @@ def register(reg):
         ensures=["first_is(old(self), key, result)", "not has_key(self, key)", "len(self._list) <= len(old(self._list))"],
         raises={"BadRequestKeyError": "not has_key(self, key)"},
     )
+
+    # ---- the remaining write sites that go through the value check
+    reg.contract("werkzeug/datastructures/structures.py:iter_multi_items", prop="C05,C08", trusted=True, modifies=[],
+                 params={"mapping": "List[Tuple[str, str]]"}, returns="List[Tuple[str, str]]", returns_expr="mapping",
+                 note="(key, value) pairs of a MultiDict / dict / iterable of pairs: for an iterable of pairs, the pairs themselves")
+    reg.contract(
+        "werkzeug/datastructures/headers.py:Headers.extend", prop="C05,C08", self_model=H,
+        params={"arg": "Optional[List[Tuple[str, str]]]"}, modifies=["self._list"],
+        requires=["I_h(self)"],
+        ensures=["I_h(self)",
+                 "implies(arg is not None, len(self._list) == len(old(self._list)) + len(arg))",
+                 "implies(arg is None, len(self._list) == len(old(self._list)))",
+                 "implies(arg is not None, forall(0, len(arg), lambda i: clean(arg[i][1])))"],
+        raises={"ValueError": "arg is not None and exists(0, len(arg), lambda i: not clean(arg[i][1]))"},
+        loops={0: {"inv": ["I_h(self)", "len(self._list) == len(old(self._list)) + _i",
+                           "forall(0, _i, lambda j: clean(arg[j][1]))"],
+                   "modifies": ["self._list"]}},
+    )
+    reg.contract(
+        "werkzeug/datastructures/headers.py:Headers.__setitem__#int", prop="C05,C08", self_model=H,
+        params={"key": "int", "value": "Tuple[str, str]"}, modifies=["self._list"], raise_modifies=[],
+        requires=["I_h(self)", "0 <= key and key < len(self._list)"],
+        ensures=["I_h(self)", "len(self._list) == len(old(self._list))",
+                 "self._list[key][0] == value[0] and self._list[key][1] == value[1]",
+                 "forall(0, len(self._list), lambda i: implies(i != key, self._list[i][0] == old(self._list)[i][0] and "
+                 "       self._list[i][1] == old(self._list)[i][1]))"],
+        raises={"ValueError": "not clean(value[1])"},
+    )
